@@ -76,5 +76,7 @@ Definition bytes_of_limbs (a : limbs) : bytes :=
 Definition lto_repr (a : limbs) : bytes := bytes_of_limbs (lto_canon a).
 (* From<u64>: Fp([val, 0, 0]) * R2 *)
 Definition lfrom_u64 (v : Z) : limbs := gl_mul (v, 0, 0) R2.
+(* impl Ord for Fp: both sides through mont_reduce (out of Montgomery form), then cmp_native *)
+Definition lcmp (a b : limbs) : comparison := cmp_native (lto_canon a) (lto_canon b).
 (* is_odd: mont_reduce, low bit *)
 Definition lis_odd (a : limbs) : bool := let '(r0, _, _) := lto_canon a in Z.odd r0.
